@@ -96,26 +96,56 @@ def unit_switch_rule(repo: Repo, rep: Report, rid: str) -> None:
         rep.fail(rid, f"{wfi.key}:flush-guard:typechange", f"expected one flush guard in the field loop, found {len(guards)}", wfi.loc())
 
 
+_FOLDS: dict = {}
+
+
+def _read_fold(repo: Repo):
+    from .. import bbfold
+
+    k = ("r", id(repo))
+    if k not in _FOLDS:
+        _FOLDS[k] = bbfold.fold_reads(repo)
+    return _FOLDS[k]
+
+
+def _write_fold(repo: Repo):
+    from .. import bbfold
+
+    k = ("w", id(repo))
+    if k not in _FOLDS:
+        _FOLDS[k] = bbfold.fold_writes(repo)
+    return _FOLDS[k]
+
+
 def straddle_rule(repo: Repo, rep: Report, rid: str) -> None:
     rep.rule(rid, "a bit-field that would straddle its unit is rejected: at definition time (calculator) and at read time (BitBuffer.read)")
     fi = repo.func("types/structure.py", "StructureMetaType._calculate_size_and_offsets")
     g = CFG(fi.node)
-    dec = [n for n in g.nodes if n.kind == "stmt" and isinstance(n.ast, ast.AugAssign) and isinstance(n.ast.op, ast.Sub)
-           and norm(n.ast.target) == "bits_remaining" and norm(n.ast.value) == "field.bits"]
+    dec = [n for n in g.nodes if n.kind == "stmt" and (
+        (isinstance(n.ast, ast.AugAssign) and isinstance(n.ast.op, ast.Sub) and norm(n.ast.target) == "bits_remaining" and norm(n.ast.value) == "field.bits")
+        or (isinstance(n.ast, ast.Assign) and norm(n.ast.targets[0]) == "bits_remaining" and norm(n.ast.value) == "bits_remaining - field.bits"))]
     chk = [n for n in g.nodes if n.kind == "if" and always_raises(n.ast.body) and isinstance(n.ast.test, ast.Compare)
            and norm(n.ast.test.left) == "bits_remaining" and isinstance(n.ast.test.ops[0], ast.Lt) and is_const(n.ast.test.comparators[0])
            and const_value(n.ast.test.comparators[0]) == 0]
-    bitarm = [n for n in g.nodes if n.kind == "if" and norm(n.ast.test) == "field.bits"]
+    # the branch taken by bit-fields: 'if field.bits:' (true edge) or the guard-clause form 'if not field.bits: ...; continue' (false edge)
+    bitarm = [(n, "T") for n in g.nodes if n.kind == "if" and norm(n.ast.test) == "field.bits"] + \
+             [(n, "F") for n in g.nodes if n.kind == "if" and norm(n.ast.test) == "not field.bits"]
     ok = len(dec) == 1 and len(chk) >= 1 and len(bitarm) >= 1
     if ok:
         ok = g.postdominates(chk[0].id, dec[0].id) or g.must_pass(dec[0].id, g.exit.id, {chk[0].id})
         # every path through the bit-field branch passes the decrement
-        arm = bitarm[0]
+        arm, edge = bitarm[0]
         loops = [n for n in g.nodes if n.kind == "for"]
-        ok = ok and loops and loops[0].id not in g.reachable(arm.id, first_edge="T", avoid={dec[0].id})
+        ok = ok and loops and loops[0].id not in g.reachable(arm.id, first_edge=edge, avoid={dec[0].id})
     rep.check(bool(ok), rid, f"{fi.key}:straddle", "every bit-field decrements bits_remaining and a negative result raises",
               "the straddle check (bits_remaining -= field.bits; if bits_remaining < 0: raise) is not on every path of the bit-field branch", fi.loc())
     rd = repo.func("bitbuffer.py", "BitBuffer.read")
+    rfold = _read_fold(repo)
+    if rfold is not None:
+        bad = rfold["straddle_bad"]
+        rep.check(not bad, rid, f"{rd.key}:straddle", "a read of more bits than the unit has left raises (folded for every width sequence that leaves a remainder)",
+                  f"BitBuffer.read can extract more bits than remain in the unit: (endian, size, widths read, bits asked, result) = {bad[0] if bad else ''}", rd.loc())
+        return
     g = CFG(rd.node)
     bits = rd.node.args.args[2].arg
     guards = {n.id for n in g.nodes if n.kind == "if" and always_raises(n.ast.body) and isinstance(n.ast.test, ast.Compare)
@@ -193,6 +223,17 @@ def signed_unit_rule(repo: Repo, rep: Report, rid: str) -> None:
     rep.rule(rid, "the accumulated (non-negative) unit pattern is handed to the storage type's range-checked _write only through an expression "
                   "that consults the type's signedness, or is emitted without that range check")
     fi = repo.func("bitbuffer.py", "BitBuffer.flush")
+    fold = _write_fold(repo)
+    if fold is not None:
+        bad = fold["range_bad"]
+        rep.info["bitbuffer_write_fold_cases"] = fold["cases"]
+        rep.check(not bad, rid, f"{fi.key}:unit-write",
+                  f"write/flush folded over {fold['cases']} (bit order, unit size, signedness style, width sequence, pattern) cases: the value handed to the "
+                  "storage type's _write always lies in that type's range",
+                  "BitBuffer.flush hands the unsigned accumulated pattern to the storage type's range-checked _write without consulting its signedness: "
+                  f"a signed storage unit with its top bit set cannot be dumped (e.g. int8 a:4; int8 b:4; on b'\\xff'); first case "
+                  f"(endian, size, signed, style, widths, pattern, value) = {bad[0] if bad else ''}", fi.loc())
+        return
     g = CFG(fi.node)
     writes = [(n, c) for n in g.nodes for c in node_calls(n, "_write")]
     raw = [(n, c) for n in g.nodes for c in node_calls(n, "to_bytes")]
@@ -230,6 +271,29 @@ def mask_rule(repo: Repo, rep: Report, rid: str) -> None:
     rep.rule(rid, "the value extracted by BitBuffer.read is masked by the field width on both endian arms; insertion shifts by the position in the unit")
     fi = repo.func("bitbuffer.py", "BitBuffer.read")
     bits = fi.node.args.args[2].arg
+    rfold, wfold = _read_fold(repo), _write_fold(repo)
+    if rfold is not None and wfold is not None:
+        rep.info["bitbuffer_read_fold_cases"] = rfold["cases"]
+        n = 0
+        for label, e in (("little", "<"), ("big", ">")):
+            bad = [x for x in rfold["bad"] if x[0] == e]
+            n += 1
+            rep.check(not bad, rid, f"{fi.key}:mask:{label}", f"read folded over the {label}-endian cases: every field comes out as its C-order bits, within [0, 2^bits)",
+                      f"{label}-endian arm does not extract the field's own bits: (endian, size, widths, unit, k-th read, got, want) = {bad[0] if bad else ''}: "
+                      "a parsed value could fall outside [0, 2^bits) or take bits of a neighbour", fi.loc())
+            bad = [x for x in rfold["consume_bad"] if x[0] == e]
+            rep.check(not bad, rid, f"{fi.key}:consume:{label}", "each read consumes exactly 'bits' bits of the unit",
+                      f"{label}-endian arm does not consume exactly '{bits}' bits: (endian, size, widths, k, remaining, expected) = {bad[0] if bad else ''}", fi.loc())
+        rep.floor(rid, "endian arms", n, 2)
+        wr = repo.func("bitbuffer.py", "BitBuffer.write")
+        bad = wfold["bad"]
+        rep.check(not bad, rid, f"{wr.key}:insert", f"write/flush folded over {wfold['cases']} cases: the unit written is the C-order packing of the fields",
+                  f"BitBuffer.write no longer inserts each field at its C-order position: (endian, size, signed, style, widths, pattern, got, want) = {bad[0] if bad else ''}", wr.loc())
+        bad = wfold["state_bad"]
+        rep.check(not bad, rid, f"{wr.key}:positions", "after the unit is written the buffer is empty again",
+                  f"after a unit is written the buffer keeps state {bad[0] if bad else ''}: the next unit would be or-ed over stale bits", wr.loc())
+        _endian_tests(repo, rep, rid)
+        return
     rets = [s for s in walk_body(fi.node.body) if isinstance(s, ast.Return)]
     if len(rets) != 1 or not isinstance(rets[0].value, ast.Name):
         raise AnalysisError("BitBuffer.read: single 'return <name>' expected")
@@ -252,6 +316,11 @@ def mask_rule(repo: Repo, rep: Report, rid: str) -> None:
         dec = [s for s in body if isinstance(s, ast.AugAssign) and isinstance(s.op, ast.Sub) and "remaining" in norm(s.target) and norm(s.value) == bits]
         rep.check(len(dec) == 1, rid, f"{fi.key}:consume:{label}", "remaining -= bits", f"{label}-endian arm does not consume exactly '{bits}' bits", fi.loc())
     rep.floor(rid, "endian arms", n, 2)
+    _endian_tests(repo, rep, rid)
+    _mask_rule_writer_structural(repo, rep, rid)
+
+
+def _endian_tests(repo: Repo, rep: Report, rid: str) -> None:
     # endian test form agreement inside BitBuffer (all comparisons are against "<")
     for qn in ("BitBuffer.read", "BitBuffer.write"):
         f = repo.func("bitbuffer.py", qn)
@@ -259,6 +328,9 @@ def mask_rule(repo: Repo, rep: Report, rid: str) -> None:
             if isinstance(c, ast.Compare) and "endian" in norm(c.left):
                 rep.check(isinstance(c.ops[0], (ast.Eq, ast.NotEq)) and is_const(c.comparators[0]) and const_value(c.comparators[0]) == "<", rid,
                           f"{f.key}:{short(c, 40)}", "little-endian iff endian == '<'", f"'{short(c, 40)}': bit order must switch on exactly '<'", f.loc(c))
+
+
+def _mask_rule_writer_structural(repo: Repo, rep: Report, rid: str) -> None:
     # writer: insertion position mirrors extraction
     wr = repo.func("bitbuffer.py", "BitBuffer.write")
     ors = [s for s in walk_body(wr.node.body) if isinstance(s, ast.AugAssign) and isinstance(s.op, ast.BitOr) and norm(s.target) == "self._buffer"]
